@@ -375,9 +375,33 @@ fn long_lived_case(c: &Case, lo: &mut LongLived, st: &mut Stats) -> Result<(), F
                 std::fs::write(lo.sb.autocorrect_file(), doc.to_string()).expect("user ac");
                 std::fs::File::options().write(true).open(lo.sb.autocorrect_file()).expect("open").set_modified(std::time::UNIX_EPOCH + std::time::Duration::from_secs(secs)).expect("mtime");
             };
+            // every third time the list is edited while the context is away in a FIXED layout (update-engine there and
+            // back): the phonetic side must not come back with what it knew before it left
+            if which % 3 == 1 {
+                let mut fixed = lo.opts;
+                fixed.layout = crate::driver::Layout::Probhat;
+                lo.warm.update(fixed, &lo.sb).map_err(pf)?;
+                lo.warm.type_text("k").map_err(pf)?;
+                lo.warm.finish().map_err(pf)?;
+                st.label("long-lived-context-was-in-a-fixed-layout-while-the-user-list-changed");
+            }
             write(json!({ key.clone(): val, "zzq": "boi" }), lo.clock);
             lo.warm.update(lo.opts, &lo.sb).map_err(pf)?;
-            lo.warm.type_text(&target).map_err(pf)?;
+            // the entry is in force from this update-engine on: compared at once with a brand-new context
+            {
+                let fresh_now = Ctx::new(lo.opts, &lo.sb).map_err(pf)?;
+                for ch in target.chars() {
+                    let a = lo.warm.ch(ch, 0).map_err(pf)?;
+                    let b = fresh_now.ch(ch, 0).map_err(pf)?;
+                    if a != b {
+                        return Err(fail(
+                            "history-dependent-suggestion-long-lived-context",
+                            format!("text {target:?} at {ch:?} ({}), right after the user's list gained {key:?} and update-engine: long-lived context shows {} but a brand-new context shows {}", lo.opts.letters(), a.short(), b.short()),
+                            c,
+                        ));
+                    }
+                }
+            }
             lo.warm.finish().map_err(pf)?;
             // while the entry is in force the context also composes the word under ONE other option value
             // (ANSI, English, smart quotes or the list itself), and comes back
